@@ -144,6 +144,51 @@ fn observe(g: &SymModel, symmetric: bool, max_depth: Option<usize>) -> String {
     }
 }
 
+/// scripted chooser (as in chk.rs): the k-th question of the run is answered with `script[k] % options` (0 afterwards)
+#[derive(Clone)]
+struct ScriptChooser { script: Arc<Vec<usize>>, pos: Arc<std::sync::atomic::AtomicUsize> }
+impl ScriptChooser {
+    fn answer(&self, n: usize) -> usize {
+        let k = self.pos.fetch_add(1, std::sync::atomic::Ordering::SeqCst);
+        if k < self.script.len() { self.script[k] % n } else { 0 }
+    }
+}
+impl stateright::Chooser<SymModel> for ScriptChooser {
+    type State = ();
+    fn new_state(&self, _seed: u64) {}
+    fn choose_initial_state(&self, _: &mut (), initial_states: &[SymSt]) -> usize { self.answer(initial_states.len()) }
+    fn choose_action(&self, _: &mut (), _cur: &SymSt, actions: &[u16]) -> usize { self.answer(actions.len()) }
+}
+
+/// simulation WITH symmetry (the per-trace loop detection works on representatives), scripted chooser, one thread
+fn observe_sim(g: &SymModel, max_depth: Option<usize>, target: usize, script: &[usize]) -> String {
+    let visits: Arc<Mutex<Vec<Vec<u16>>>> = Arc::new(Mutex::new(vec![]));
+    let v2 = visits.clone();
+    let g2 = g.clone();
+    let chooser = ScriptChooser { script: Arc::new(script.to_vec()), pos: Arc::new(std::sync::atomic::AtomicUsize::new(0)) };
+    let r = catch_unwind(AssertUnwindSafe(move || {
+        let mut b = g2.clone().checker().threads(1).symmetry().target_state_count(target)
+            .visitor(move |p: stateright::Path<SymSt, u16>| { v2.lock().unwrap().push(p.into_states().iter().map(|s| s.idx).collect()); });
+        if let Some(d) = max_depth { b = b.target_max_depth(d); }
+        let c = b.spawn_simulation(0, chooser).join();
+        let mut disc = BTreeMap::new();
+        for (name, path) in c.discoveries() {
+            let i = NAMES.iter().position(|n| *n == name).unwrap();
+            disc.insert(i, path.into_states().iter().map(|s| s.idx).collect::<Vec<u16>>());
+        }
+        (c.unique_state_count(), c.state_count(), c.max_depth(), disc)
+    }));
+    match r {
+        Err(_) => "panic".into(),
+        Ok((uniq, count, depth, disc)) => {
+            let vs = visits.lock().unwrap();
+            format!("(visits {}) (uniq {}) (count {}) (depth {}) (disc {})",
+                format!("({})", vs.iter().map(|p| path_sx(p)).collect::<Vec<_>>().join(" ")), uniq, count, depth,
+                format!("({})", disc.iter().map(|(i, p)| format!("({} {})", i, path_sx(p))).collect::<Vec<_>>().join(" ")))
+        }
+    }
+}
+
 fn main() {
     quiet_panics();
     let mut out = Out::new();
@@ -176,6 +221,21 @@ fn main() {
             if complete(&obs, g.props.len()) && complete(&plain, g.props.len()) && fa != fb {
                 out.v("symmetry-changes-verdicts", &format!("{} props {} reduced {:?} unreduced {:?}", gs, ps, fa, fb));
             }
+        }
+        // simulation with symmetry: exact correspondence with the simulation model whose seen-set holds representatives
+        if c % 2 == 0 {
+            let mut gs2 = g.clone();
+            // initial states inside the boundary (whole classes, so the boundary stays invariant): every trace counts
+            // at least one state and the target state count ends the run
+            for s in gs2.init.clone() { let rp = rep_idx(s, gs2.m, gs2.k); for t in 0..gs2.n() { if rep_idx(t as u16, gs2.m, gs2.k) == rp { gs2.bnd_rep[t] = true; } } }
+            let script: Vec<usize> = (0..r.below(40)).map(|_| r.below(12)).collect();
+            let sd = if r.chance(1, 3) { Some(r.range(1, 6)) } else { None };
+            let target = r.range(1, 12);
+            let scfg = format!("(cfg {} {} all)", sd.map(|d| d.to_string()).unwrap_or("none".into()), target);
+            let obs = observe_sim(&gs2, sd, target, &script);
+            out.m(&format!("sim-sym {} {} {} {} ({})", gs2.graph_sx(), gs2.props_sx(), scfg, gs2.rep_sx(), script.iter().map(|x| x.to_string()).collect::<Vec<_>>().join(" ")), &obs);
+            out.stat("simulation-with-symmetry");
+            if obs.contains("(disc ())") { out.stat("simulation-with-symmetry-no-discovery"); }
         }
         let noncanon_init = g.init.iter().any(|s| rep_idx(*s, g.m, g.k) != *s);
         if noncanon_init { out.stat("initial-state-not-its-own-representative"); }
